@@ -31,7 +31,7 @@
 #define NTM 8
 #define NTK 3
 #define NEV 2
-#define NRAW 1
+#define NRAW 2
 #undef NSIG
 #define NSIG 2
 #define NWK 2
@@ -60,6 +60,7 @@ struct fdslot {
 	int lfd, pfd;           /* library side / peer side; -1 if none */
 	int hv[3];              /* installed handler variant per band: 0 none, 1 A, 2 B */
 	int peer_closed, peer_shut;
+	int is_pipe;            /* backed by the write end of a pipe (pfd = its read end) instead of a socket pair */
 	int fed, filled;
 	int unserved[3];        /* consecutive wait entries wanted+ready without invocation */
 	int called_iter[3];
@@ -70,7 +71,7 @@ struct fdslot {
 struct tmslot { struct iv_timer *p; int reg, gen; struct timespec exp; int fired_gen; int overdue_polls; };
 struct tkslot { struct iv_task *p; int reg, gen; int ran_iter; int reg_from_ran; };
 struct evslot { struct iv_event *p; int reg, gen; int pending; };
-struct rawslot { struct iv_event_raw *p; int reg, gen; int pending; };
+struct rawslot { struct iv_event_raw *p; int reg, gen; int pending; int reported_gen, called_iter; };
 struct sigslot { struct iv_signal *p; int reg, gen; int pending; int flags; };
 struct wkslot { struct iv_work_item *p; int submitted, gen; int worked, completed; };
 
@@ -89,7 +90,8 @@ static unsigned long opmask = ~0UL;
 static int fault_eintr_wait, fault_eintr_io, fault_emfile, fault_sc;
 static const char *rules;
 static int use_hash;
-static int nofree, tkkeep;
+static int nofree, tkkeep, fdkeep;
+static int fd_reuse_inited[8];
 static int poison = 0xbe;
 static struct iv_fd *fd_reuse[NFD];
 static long long drift_ns;
@@ -181,6 +183,8 @@ static int model_count(void)
 	return n;
 }
 
+static int want_pipe;
+
 static void fd_newsock(struct fdslot *f)
 {
 	int sv[2];
@@ -189,10 +193,19 @@ static void fd_newsock(struct fdslot *f)
 		close(f->lfd);
 	if (f->pfd >= 0)
 		close(f->pfd);
-	if (socketpair(AF_UNIX, SOCK_STREAM, 0, sv) < 0)
-		mc_broken("socketpair: %s", strerror(errno));
-	f->lfd = sv[0];
-	f->pfd = sv[1];
+	f->is_pipe = want_pipe;
+	if (want_pipe) {
+		/* the only portable source of a bare POLLERR: the write end of a pipe whose reader goes away */
+		if (pipe(sv) < 0)
+			mc_broken("pipe: %s", strerror(errno));
+		f->lfd = sv[1];
+		f->pfd = sv[0];
+	} else {
+		if (socketpair(AF_UNIX, SOCK_STREAM, 0, sv) < 0)
+			mc_broken("socketpair: %s", strerror(errno));
+		f->lfd = sv[0];
+		f->pfd = sv[1];
+	}
 	f->peer_closed = f->peer_shut = f->fed = f->filled = 0;
 }
 
@@ -232,7 +245,7 @@ static int build_menu(struct act *m, int max, int stim)
 			}
 		}
 		if (f->lfd >= 0) {
-			if (enabled(OP_FD_FEED) && !f->peer_closed && !f->peer_shut && f->fed < 3)
+			if (enabled(OP_FD_FEED) && !f->is_pipe && !f->peer_closed && !f->peer_shut && f->fed < 3)
 				ADD(OP_FD_FEED, i, 0, 0);
 			if (!stim && enabled(OP_FD_DRAIN) && f->fed > 0)
 				ADD(OP_FD_DRAIN, i, 0, 0);
@@ -242,7 +255,7 @@ static int build_menu(struct act *m, int max, int stim)
 				ADD(OP_FD_UNFILL, i, 0, 0);
 			if (enabled(OP_FD_PCLOSE) && !f->peer_closed)
 				ADD(OP_FD_PCLOSE, i, 0, 0);
-			if (enabled(OP_FD_PSHUT) && !f->peer_closed && !f->peer_shut)
+			if (enabled(OP_FD_PSHUT) && !f->is_pipe && !f->peer_closed && !f->peer_shut)
 				ADD(OP_FD_PSHUT, i, 0, 0);
 		}
 	}
@@ -329,6 +342,17 @@ static void fd_free(struct fdslot *f)
 	} else if (!fd_reuse[f - F]) {
 		/* struct reuse after unregister: the next registration of this slot lives in the same memory */
 		fd_reuse[f - F] = f->p;
+		fd_reuse_inited[f - F] = 1;
+		if (!fdkeep) {
+			/* an application that recycles its objects: the struct is set up for its next use right away (it is the
+			 * caller's memory again), and registered whenever the slot is registered next */
+			IV_FD_INIT(f->p);
+			f->p->fd = f->lfd;
+			f->p->cookie = new_cookie(KD_FD, f - F, f->gen + 1);
+			f->p->handler_in = fd_handlers[B_IN][1];
+			f->p->handler_out = fd_handlers[B_OUT][1];
+			f->p->handler_err = fd_handlers[B_ERR][1];
+		}
 	}
 	f->p = NULL;
 }
@@ -382,18 +406,29 @@ static void perform(const struct act *a)
 	case OP_FD_REG: case OP_FD_TRY: case OP_FD_TRYBAD: {
 		struct fdslot *f = &F[a->a];
 		int b, ret = 0, badfd = -1, flags;
-		if (f->lfd < 0 || f->peer_closed)
+		if (f->lfd < 0 || f->peer_closed) {
+			want_pipe = (a->op == OP_FD_REG && a->c == 1);
 			fd_newsock(f);
+			want_pipe = 0;
+		}
+		int keep = 0;
 		if (fd_reuse[a->a]) {
 			/* the very struct whose registration failed before is initialised again and re-used */
 			f->p = fd_reuse[a->a];
 			fd_reuse[a->a] = NULL;
-			mc_obs("reuse-struct");
+			/* fdkeep=1: a struct that was initialised once, registered and unregistered is registered again as it is
+			 * (iv_fd(3) asks for IV_FD_INIT before registration, not before every registration) */
+			keep = fdkeep && fd_reuse_inited[a->a];
+			fd_reuse_inited[a->a] = 0;
+			mc_obs(keep ? "reuse-struct-noinit" : "reuse-struct");
 		} else {
 			f->p = malloc(sizeof(struct iv_fd));
 			memset(f->p, poison, sizeof(struct iv_fd));
 		}
-		IV_FD_INIT(f->p);
+		if (!keep)
+			IV_FD_INIT(f->p);
+		else
+			f->p->handler_in = f->p->handler_out = f->p->handler_err = NULL;
 		f->gen++;
 		f->p->cookie = new_cookie(KD_FD, a->a, f->gen);
 		if (a->op == OP_FD_TRYBAD) {
@@ -506,7 +541,13 @@ static void perform(const struct act *a)
 	case OP_FD_FILL: {
 		char buf[4096];
 		memset(buf, 'f', sizeof(buf));
-		while (send(F[a->a].lfd, buf, sizeof(buf), MSG_DONTWAIT | MSG_NOSIGNAL) > 0)
+		if (F[a->a].is_pipe) {
+			int fl = fcntl(F[a->a].lfd, F_GETFL);
+			fcntl(F[a->a].lfd, F_SETFL, fl | O_NONBLOCK);
+			while (write(F[a->a].lfd, buf, sizeof(buf)) > 0)
+				;
+		}
+		while (!F[a->a].is_pipe && send(F[a->a].lfd, buf, sizeof(buf), MSG_DONTWAIT | MSG_NOSIGNAL) > 0)
 			;
 		F[a->a].filled = 1;
 		F[a->a].drained_iter = 1;
@@ -514,7 +555,13 @@ static void perform(const struct act *a)
 	}
 	case OP_FD_UNFILL: {
 		char buf[65536];
-		while (recv(F[a->a].pfd, buf, sizeof(buf), MSG_DONTWAIT) > 0)
+		if (F[a->a].is_pipe) {
+			int fl = fcntl(F[a->a].pfd, F_GETFL);
+			fcntl(F[a->a].pfd, F_SETFL, fl | O_NONBLOCK);
+			while (read(F[a->a].pfd, buf, sizeof(buf)) > 0)
+				;
+		}
+		while (!F[a->a].is_pipe && recv(F[a->a].pfd, buf, sizeof(buf), MSG_DONTWAIT) > 0)
 			;
 		F[a->a].filled = 0;
 		F[a->a].drained_iter = 1;
@@ -807,7 +854,11 @@ static void fd_default(void *_x)
 		/* scripted application step of this seed (cost 0); skipped when a deviation has made it invalid meanwhile
 		 * (e.g. the timer it would unregister is gone already) */
 		struct act vm[128];
-		int vn = build_menu(vm, 128, 0), vi;
+		unsigned long saved_mask = opmask;
+		int vn, vi;
+		opmask = ~0UL;          /* validity only; the ops= filter restricts deviations, not the seed's own script */
+		vn = build_menu(vm, 128, 0);
+		opmask = saved_mask;
 		script_done = 1;
 		for (vi = 0; vi < vn; vi++)
 			if (vm[vi].op == script_act.op && vm[vi].a == script_act.a && vm[vi].b == script_act.b && vm[vi].c == script_act.c)
@@ -962,6 +1013,7 @@ static void raw_cb(void *_ck)
 	if (!r->pending)
 		FAIL("raw-over", "raw event %d handler ran without a post", ck->slot);
 	r->pending = 0;
+	r->called_iter = iter;
 	run_actions("cb-raw", NULL, NULL);
 	cb_leave();
 }
@@ -1057,21 +1109,30 @@ static void wait_entry(struct env_wait *w)
 	} else {
 		empty_polls = 0;
 	}
-	if (iter > horizon)
-		mc_done();
-
 	if (env_ts_cmp(&env_now, &last_wait_time) == 0 && !callbacks_since_wait && !eintr_since_wait && iter > 1) {
 		if (++zero_progress_waits > 8)
 			FAIL("spin", "%d consecutive wake-ups without any callback, elapsed time or interrupted wait", zero_progress_waits);
 	} else {
 		zero_progress_waits = 0;
 	}
+	/* the horizon does not cut a run of empty wake-ups short: it either ends by itself or becomes a spin */
+	if (iter > horizon && zero_progress_waits < 2)
+		mc_done();
+	if (iter > horizon + 10)
+		mc_done();
 	last_wait_time = env_now;
 	callbacks_since_wait = 0;
 	prev_wait_eintr = eintr_since_wait;
 	eintr_since_wait = 0;
 	memset(tasks_ran_since_wait, 0, sizeof(tasks_ran_since_wait));
 
+	for (i = 0; i < NRAW; i++) {
+		/* the same for raw events: the kernel reported the object's descriptor readable, the object stayed registered */
+		if (RW[i].reg && RW[i].reported_gen == RW[i].gen && iter > 1 && RW[i].called_iter != iter - 1)
+			FAIL("raw-skipped", "raw event %d: the kernel reported its descriptor readable at the last poll and it stayed registered, "
+			     "but its handler was not invoked in that iteration", i);
+		RW[i].reported_gen = 0;
+	}
 	for (i = 0; i < NFD; i++) {
 		struct fdslot *f = &F[i];
 		int truth;
@@ -1143,6 +1204,12 @@ static void wait_ret(struct env_wait *w, int n)
 				continue;
 			if (w->is_epoll ? (w->ev[i].data.ptr == (void *)F[j].p) : (w->pfds[i].fd == F[j].lfd))
 				F[j].reported |= m;
+		}
+		for (j = 0; j < NRAW; j++) {
+			if (!RW[j].reg || !(m & MASKIN))
+				continue;
+			if (w->is_epoll ? (w->ev[i].data.ptr == (void *)&RW[j].p->event_rfd) : (w->pfds[i].fd == RW[j].p->event_rfd.fd))
+				RW[j].reported_gen = RW[j].gen;
 		}
 	}
 	mc_obs("r%d", n);
@@ -1335,6 +1402,12 @@ static const struct seed seeds[] = {
 	/* 29 */ { "fd0-err-only-hup,fd1-in-idle", 0, { A(OP_FD_REG, 0, 4, 0), A(OP_FD_REG, 1, 0, 0), A(OP_FD_PCLOSE, 0, 0, 0), END } },
 	/* 30 */ { "chatty-fd0,timer+10ms-unregistered-at-iteration-7", 8, { A(OP_FD_REG, 0, 0, 0), A(OP_FD_FEED, 0, 0, 0), A(OP_TM_REG, 0, 4, 0), END }, 7, A(OP_TM_UNREG, 0, 0, 0) },
 	/* 31 */ { "two-events-posted,fd0-idle", 0, { A(OP_EV_REG, 0, 0, 0), A(OP_EV_REG, 1, 0, 0), A(OP_EV_POST, 0, 0, 0), A(OP_EV_POST, 1, 0, 0), A(OP_FD_REG, 0, 0, 0), END } },
+	/* 32 */ { "pipe-w-err-only,pipe-w-in-only,reader-of-fd0-gone", 0, { A(OP_FD_REG, 0, 4, 1), A(OP_FD_REG, 1, 0, 1), A(OP_FD_PCLOSE, 0, 0, 0), END } },
+	/* 33 */ { "pipe-w-in-only,fd1-in-idle,reader-gone", 0, { A(OP_FD_REG, 0, 0, 1), A(OP_FD_REG, 1, 0, 0), A(OP_FD_PCLOSE, 0, 0, 0), END } },
+	/* 34 */ { "raw0,raw1-posted,fd0-idle", 0, { A(OP_RAW_REG, 0, 0, 0), A(OP_RAW_REG, 1, 0, 0), A(OP_RAW_POST, 0, 0, 0), A(OP_RAW_POST, 1, 0, 0), A(OP_FD_REG, 0, 0, 0), END } },
+	/* 35 */ { "fd0-all-fed,raw0-posted,fd1-in-fed", 0, { A(OP_FD_REG, 0, 2, 0), A(OP_FD_FEED, 0, 0, 0), A(OP_RAW_REG, 0, 0, 0), A(OP_RAW_POST, 0, 0, 0), A(OP_FD_REG, 1, 0, 0), A(OP_FD_FEED, 1, 0, 0), END } },
+	/* 36 */ { "chatty-fd0(12),timer+10ms,task-registered-at-iteration-7", 12, { A(OP_FD_REG, 0, 0, 0), A(OP_FD_FEED, 0, 0, 0), A(OP_TM_REG, 0, 4, 0), END }, 7, A(OP_TK_REG, 0, 0, 0) },
+	/* 37 */ { "chatty-fd0(9),timer-far,two-events-registered,task-at-iteration-9", 9, { A(OP_FD_REG, 0, 0, 0), A(OP_FD_FEED, 0, 0, 0), A(OP_TM_REG, 0, 5, 0), A(OP_EV_REG, 0, 0, 0), A(OP_EV_REG, 1, 0, 0), END }, 9, A(OP_TK_REG, 0, 0, 0) },
 };
 #define NSEEDS ((int)(sizeof(seeds) / sizeof(seeds[0])))
 
@@ -1407,6 +1480,7 @@ static void exec_one(void)
 	drift_ns = mc_arg_int("drift_ns", 0);
 	nofree = mc_arg_int("nofree", 0);
 	tkkeep = mc_arg_int("tkkeep", 0);
+	fdkeep = mc_arg_int("fdkeep", 0);
 	rules = mc_arg("rules", "all");
 	parse_ops(mc_arg("ops", "all"));
 	nm = parse_list(mc_arg("methods", "0-3"), methods, 4);
